@@ -60,7 +60,13 @@ pub fn gen_solver<VS: HSet>(sink: &mut Sink, prop: &str, thorough: bool, seed: u
     }
     let _ = thorough;
     for i in 0..n_random {
-        let reg = if i % 3 == 2 { layered_registry::<VS>(&mut rng, &versions) } else { random_registry::<VS>(&mut rng, &versions) };
+        let reg = if i % 12 == 11 {
+            big_registry::<VS>(&mut rng, &versions)
+        } else if i % 3 == 2 {
+            layered_registry::<VS>(&mut rng, &versions)
+        } else {
+            random_registry::<VS>(&mut rng, &versions)
+        };
         let rvs = reg.versions("root");
         let rv = if rvs.is_empty() || rng.chance(1, 30) { 1 } else { rvs[rng.below(rvs.len() as u64) as usize] };
         let r = SolveReq { debug, root: "root".into(), rv, reg, strat: random_strat(&mut rng), fault: Fault::None };
